@@ -16,6 +16,11 @@ fn pid(b: u8) -> PackId {
 fn blob(id: u8, tpe: BlobType, offset: u32, length: u32) -> IndexBlob {
     IndexBlob { id: bid(id), tpe, location: BlobLocation { offset, length, uncompressed_length: None } }
 }
+/// `Zoned::saturating_sub(span)` for the ZERO span used by the decision-table harness (jiff's calendar
+/// arithmetic is far too heavy for CBMC); exact for Span::default().
+fn zoned_sub_zero<A: Into<jiff::ZonedArithmetic>>(z: &Zoned, _d: A) -> Zoned {
+    z.clone()
+}
 fn no_debug_stats(_s: &mut DebugStats, _pi: &PackInfo, _todo: PackToDo, _status: EnumSet<PackStatus>) {}
 
 /// U02.1 `PackInfo::from_pack` -- BOUNDED: one pack with 3 blobs (ids from {1,2}, so duplicates inside the
@@ -82,16 +87,17 @@ fn c02_bounded_from_pack_accounting() {
 
 /// U02.2 decision table of `PrunePlan::decide_packs` for ONE pack holding ONE blob -- complete over: marked
 /// or not, blob referenced or not, pack time None / before / after the limit, all boolean options.
-/// keep_pack = keep_delete = 0 and "now" fixed at 1000 s (jiff span arithmetic stays concrete).
+/// keep_pack = keep_delete = 0 (Zoned::saturating_sub stubbed by the identity, exact for the zero span) and "now" = Unix epoch.
 #[kani::proof]
 #[kani::unwind(34)]
 #[kani::stub(DebugStats::add, no_debug_stats)]
+#[kani::stub(jiff::Zoned::saturating_sub, zoned_sub_zero)]
 fn c02_decision_table_single_pack() {
     let marked: bool = kani::any();
     let referenced: bool = kani::any();
     let tpe = if kani::any() { BlobType::Tree } else { BlobType::Data };
     let t: i64 = kani::any();
-    kani::assume(t >= 900 && t <= 1100);
+    kani::assume(t >= -100 && t <= 100);
     let has_time: bool = kani::any();
     let time = if has_time { Some(Timestamp::from_second(t).unwrap()) } else { None };
     let size: u32 = kani::any();
@@ -101,7 +107,7 @@ fn c02_decision_table_single_pack() {
     };
     let mut used_ids = BTreeMap::new();
     if referenced { let _ = used_ids.insert(bid(1), 1u8); }
-    let now = Timestamp::from_second(1000).unwrap().to_zoned(jiff::tz::TimeZone::UTC);
+    let now = Zoned::default();
     let mut plan = PrunePlan {
         time: now,
         used_ids,
@@ -132,12 +138,12 @@ fn c02_decision_table_single_pack() {
         // unreferenced and already marked: deleted only once the keep-delete time has passed
         match (has_time, todo) {
             (false, x) => assert!(x == PackToDo::KeepMarkedAndCorrect),
-            (true, PackToDo::Delete) => assert!(t <= 1000),
-            (true, x) => assert!(x == PackToDo::KeepMarked && t > 1000),
+            (true, PackToDo::Delete) => assert!(t <= 0),
+            (true, x) => assert!(x == PackToDo::KeepMarked && t > 0),
         }
     } else {
         // unreferenced, not marked: first phase only marks (never deletes), young packs are kept
-        let too_young = has_time && t > 1000;
+        let too_young = has_time && t > 0;
         assert!(todo == if too_young { PackToDo::Keep } else { PackToDo::MarkDelete });
         assert!(!candidate);
     }
